@@ -657,18 +657,263 @@ Proof.
   reflexivity.
 Qed.
 
-Theorem roundtrip_norm d :
+(* the replacements applied to the whole text (JsonFromEEBUSJson before the fix) are right
+   when no literal contains a pattern *)
+Theorem global_roundtrip d :
   top_nonempty d = true -> lits_ok d = true ->
-  from_eebus (wire d) = render (norm d).
+  from_eebus_global (wire d) = render (norm d).
 Proof.
   intros Htop Hlits. destruct d as [l|vs|[|m ms]]; try discriminate.
-  unfold from_eebus. rewrite wire_top, passes_tokens by (apply tt_toks_ok, Hlits).
+  unfold from_eebus_global. rewrite wire_top, passes_tokens by (apply tt_toks_ok, Hlits).
   rewrite passes_top, tt4_norm.
   unfold render. cbn [norm rt map].
   set (body := sepcat [CM] _).
   change (flat (LC :: body ++ [RC])) with (123 :: flat (body ++ [RC])).
   rewrite flat_app. change (flat [RC]) with [125]. apply trim_braces.
 Qed.
+
+(* ================================================================== 7b. the scanning conversion
+   (JsonFromEEBUSJson after the fix): string literals are copied, the passes see only the
+   stretches between them.  Needs lexical well-formedness of the literals only. *)
+
+(* a pattern of punctuation never matches across a literal token *)
+Lemma is_prefix_P_app_L (q : bytes) x l y :
+  is_prefix tok_eqb (map P q) (x ++ L l :: y) = is_prefix tok_eqb (map P q) x.
+Proof.
+  revert x; induction q as [|a q IH]; intros x; [reflexivity|].
+  destruct x as [|c x]; [reflexivity|]. cbn [map app is_prefix]. rewrite IH. reflexivity.
+Qed.
+
+Lemma ra_split_L_n (pat rep : bytes) l y n : pat <> [] ->
+  forall x, (length x <= n)%nat ->
+  ra tok_eqb (map P pat) (map P rep) 0 (x ++ L l :: y)
+  = ra tok_eqb (map P pat) (map P rep) 0 x ++ L l :: ra tok_eqb (map P pat) (map P rep) 0 y.
+Proof.
+  intros Hne. assert (Hne' : map P pat <> []) by (destruct pat; [congruence|discriminate]).
+  induction n as [|n IH]; intros x Hlen.
+  - destruct x; [|simpl in Hlen; lia]. cbn [app]. rewrite ra_nomatch; [reflexivity|].
+    destruct pat; [congruence|reflexivity].
+  - destruct x as [|c x].
+    + cbn [app]. rewrite ra_nomatch; [reflexivity|]. destruct pat; [congruence|reflexivity].
+    + destruct (is_prefix tok_eqb (map P pat) (c :: x)) eqn:E.
+      * destruct (ra_match tok_eqb tok_eqb_sound (map P pat) (map P rep) _ Hne' E) as [x' [Ex Era]].
+        rewrite Era, Ex, <- !app_assoc.
+        assert (E2 : is_prefix tok_eqb (map P pat) (map P pat ++ x' ++ L l :: y) = true).
+        { rewrite app_assoc, is_prefix_P_app_L, <- Ex. exact E. }
+        destruct (ra_match tok_eqb tok_eqb_sound (map P pat) (map P rep) _ Hne' E2) as [z [Ez Erz]].
+        apply app_inv_head in Ez. subst z. rewrite Erz. f_equal. apply IH.
+        assert (Hl : length (c :: x) = length (map P pat ++ x')) by (rewrite Ex; reflexivity).
+        rewrite app_length, map_length in Hl. cbn [length] in Hlen, Hl.
+        destruct pat; [congruence|]. cbn [length] in Hl. lia.
+      * rewrite (ra_nomatch tok_eqb _ _ _ _ E).
+        change ((c :: x) ++ L l :: y) with (c :: x ++ L l :: y).
+        rewrite ra_nomatch.
+        -- cbn [app]. f_equal. apply IH. cbn [length] in Hlen. lia.
+        -- change (c :: x ++ L l :: y) with ((c :: x) ++ L l :: y). rewrite is_prefix_P_app_L. exact E.
+Qed.
+
+Lemma ra_split_L (pat rep : bytes) x l y : pat <> [] ->
+  ra tok_eqb (map P pat) (map P rep) 0 (x ++ L l :: y)
+  = ra tok_eqb (map P pat) (map P rep) 0 x ++ L l :: ra tok_eqb (map P pat) (map P rep) 0 y.
+Proof. intros Hne. apply (ra_split_L_n pat rep l y (length x) Hne). lia. Qed.
+
+Definition P4 (ts : list tok) : list tok := rp4 (rp3 (rp2 (rp1 ts))).
+
+Lemma P4_split_L x l y : P4 (x ++ L l :: y) = P4 x ++ L l :: P4 y.
+Proof.
+  unfold P4, rp1, rp2, rp3, rp4.
+  rewrite (ra_split_L [91; 123] [123]) by discriminate.
+  rewrite (ra_split_L [125; 44; 123] [44]) by discriminate.
+  rewrite (ra_split_L [125; 93] [125]) by discriminate.
+  rewrite (ra_split_L [91; 93] [123; 125]) by discriminate.
+  reflexivity.
+Qed.
+
+(* literals: an atom is invisible to the passes *)
+Lemma occurs_no_common (pat l : bytes) :
+  pat <> [] -> (forall c, In c l -> in_set c pat = false) -> occurs pat l = false.
+Proof.
+  intros Hne H. induction l as [|c l IH]; [reflexivity|].
+  cbn [occurs]. rewrite IH by (intros x Hx; apply H; right; exact Hx).
+  rewrite orb_false_r. destruct pat as [|p pat]; [congruence|].
+  cbn [is_prefix]. destruct (N.eqb p c) eqn:E; [|reflexivity].
+  apply N.eqb_eq in E. subst c. specialize (H p (or_introl eq_refl)).
+  assert (in_set p (p :: pat) = true) by (apply in_set_In; left; reflexivity). congruence.
+Qed.
+
+Lemma atom_lit_ok l : atom_ok l = true -> lit_ok l = true.
+Proof.
+  unfold atom_ok. intros H. apply andb_true_iff in H as [Hne H].
+  destruct l as [|c l]; [discriminate|]. rewrite forallb_forall in H.
+  assert (Hc : forall x, In x (c :: l) -> in_set x pat_bytes = false).
+  { intros x Hx. specialize (H x Hx). apply andb_true_iff in H as [_ H]. apply negb_true_iff in H. exact H. }
+  cbn [lit_ok]. rewrite (Hc c (or_introl eq_refl)).
+  rewrite (Hc (last (c :: l) 0)) by (apply last_in; discriminate). cbn [negb andb].
+  apply forallb_forall. intros pr Hpr. apply negb_true_iff. apply occurs_no_common.
+  - pose proof table_ok_true as T. unfold table_ok in T.
+    apply andb_true_iff in T as [T _]. apply andb_true_iff in T as [T _]. apply andb_true_iff in T as [_ T].
+    rewrite forallb_forall in T. specialize (T pr Hpr). cbv beta in T.
+    destruct pr as [pp rr]. cbn [fst] in *. destruct pp; [cbn in T; discriminate T|discriminate].
+  - intros x Hx. destruct (in_set x (fst pr)) eqn:E; [|reflexivity].
+    apply in_set_In in E. assert (Hin : In x pat_bytes).
+    { unfold pat_bytes. apply in_flat_map. exists pr. split; assumption. }
+    apply in_set_In in Hin. rewrite (Hc x Hx) in Hin. discriminate.
+Qed.
+
+Lemma scan_noquote l : forall seg rest,
+  forallb (fun c => negb (c =? 34)) l = true ->
+  scan 0 seg (l ++ rest) = scan 0 (rev l ++ seg) rest.
+Proof.
+  induction l as [|c l IH]; intros seg rest H; [reflexivity|].
+  cbn [forallb] in H. apply andb_true_iff in H as [Hc H]. apply negb_true_iff in Hc.
+  cbn [app scan]. rewrite Hc. rewrite IH by exact H. cbn [rev]. rewrite <- app_assoc. reflexivity.
+Qed.
+
+Lemma scan_string m : forall esc rest,
+  str_tail_ok esc m = true ->
+  scan (if esc then 2 else 1) [] (m ++ rest) = m ++ scan 0 [] rest.
+Proof.
+  induction m as [|c m IH]; intros esc rest H; [discriminate|].
+  cbn [str_tail_ok] in H. destruct esc.
+  - cbn [app scan]. f_equal. apply (IH false). exact H.
+  - cbn [app scan]. f_equal. destruct (c =? 92) eqn:E92.
+    + apply (IH true). exact H.
+    + destruct (c =? 34) eqn:E34.
+      * destruct m; [reflexivity|discriminate].
+      * apply (IH false). exact H.
+Qed.
+
+(* segment tokens: punctuation other than a quote, and atoms *)
+Definition seg_tok (t : tok) : bool :=
+  match t with P b => negb (b =? 34) | L l => atom_ok l end.
+Definition wf_tok (t : tok) : bool :=
+  match t with P b => negb (b =? 34) | L l => lit_wf l end.
+
+Lemma seg_toks_ok pre : forallb seg_tok pre = true -> toks_ok pre = true.
+Proof.
+  intros H. unfold toks_ok. rewrite forallb_forall in *. intros [b|l] Ht; [reflexivity|].
+  apply atom_lit_ok. exact (H _ Ht).
+Qed.
+
+Lemma atom_noquote l : atom_ok l = true -> forallb (fun c => negb (c =? 34)) l = true.
+Proof.
+  unfold atom_ok. intros H. apply andb_true_iff in H as [_ H]. rewrite forallb_forall in *.
+  intros x Hx. specialize (H x Hx). apply andb_true_iff in H as [H _]. exact H.
+Qed.
+
+Lemma scan_tokens ts : forall pre,
+  forallb seg_tok pre = true -> forallb wf_tok ts = true ->
+  scan 0 (rev (flat pre)) (flat ts) = flat (P4 (pre ++ ts)).
+Proof.
+  induction ts as [|t ts IH]; intros pre Hpre Hts.
+  - cbn [flat flat_map scan]. rewrite rev_involutive, app_nil_r.
+    apply passes_tokens, seg_toks_ok, Hpre.
+  - cbn [forallb] in Hts. apply andb_true_iff in Hts as [Ht Hts].
+    assert (Hstep : forall x, seg_tok x = true -> flat [x] = tok_bytes x ->
+                    scan 0 (rev (flat (pre ++ [x]))) (flat ts) = flat (P4 ((pre ++ [x]) ++ ts))).
+    { intros x Hx _. apply IH; [|exact Hts]. rewrite forallb_app, Hpre. cbn. rewrite Hx. reflexivity. }
+    destruct t as [b|l].
+    + cbn [wf_tok] in Ht. change (flat (P b :: ts)) with (b :: flat ts).
+      cbn [scan]. apply negb_true_iff in Ht. rewrite Ht.
+      specialize (Hstep (P b)). rewrite flat_app, rev_app_distr, <- app_assoc in Hstep.
+      apply Hstep; [cbn; rewrite Ht; reflexivity|reflexivity].
+    + cbn [wf_tok] in Ht. unfold lit_wf in Ht. destruct (atom_ok l) eqn:Ea.
+      * change (flat (L l :: ts)) with (l ++ flat ts).
+        rewrite scan_noquote by (apply atom_noquote, Ea).
+        specialize (Hstep (L l)). rewrite flat_app, rev_app_distr, <- app_assoc in Hstep.
+        change (flat [L l]) with (l ++ []) in Hstep. rewrite app_nil_r in Hstep.
+        apply Hstep; [exact Ea|reflexivity].
+      * rewrite orb_false_r in Ht. unfold str_lit_ok in Ht.
+        destruct l as [|c m]; [discriminate|]. apply andb_true_iff in Ht as [Hq Hm].
+        apply N.eqb_eq in Hq. subst c.
+        change (flat (L (34 :: m) :: ts)) with (34 :: m ++ flat ts).
+        cbn [scan]. change (34 =? 34) with true. cbv iota.
+        rewrite rev_involutive, (scan_string m false _ Hm).
+        rewrite P4_split_L, flat_app.
+        rewrite (passes_tokens pre) by (apply seg_toks_ok, Hpre).
+        change (flat (L (34 :: m) :: ?t)) with (34 :: m ++ flat t).
+        f_equal. f_equal. f_equal.
+        specialize (IH [] eq_refl Hts). cbn [flat flat_map rev app] in IH. exact IH.
+Qed.
+
+Lemma wt_wf s d : lits_wf d = true -> forallb wf_tok (wt s d) = true.
+Proof.
+  induction d as [l|vs IH|ms IH] using json_ind'; intros H.
+  - cbn in *. rewrite H. reflexivity.
+  - destruct vs as [|v vs]; [unfold wt, emp; destruct (s <? 4)%nat; reflexivity|].
+    rewrite wt_JA. change (LB :: ?t ++ [RB]) with ([LB] ++ t ++ [RB]).
+    rewrite !forallb_app. cbn [forallb wf_tok LB RB N.eqb Pos.eqb negb andb]. rewrite andb_true_r.
+    cbn [lits_wf] in H. rewrite Forall_forall in IH. rewrite forallb_forall in H.
+    remember (v :: vs) as xs eqn:Exs. clear Exs v vs.
+    induction xs as [|x xs IHx]; [reflexivity|].
+    assert (Hx : forallb wf_tok (wt s x) = true) by (apply IH; [left; reflexivity|apply H; left; reflexivity]).
+    assert (Hr : forallb wf_tok (sepcat [CM] (map (wt s) xs)) = true).
+    { apply IHx; intros; [apply IH|apply H]; try right; assumption. }
+    destruct xs as [|y xs]; [exact Hx|].
+    change (sepcat [CM] (map (wt s) (x :: y :: xs))) with (wt s x ++ [CM] ++ sepcat [CM] (map (wt s) (y :: xs))).
+    rewrite !forallb_app, Hx, Hr. reflexivity.
+  - destruct ms as [|m ms]; [unfold wt, emp; destruct (s <? 4)%nat; reflexivity|].
+    rewrite wt_JO. rewrite !forallb_app.
+    assert (Ho : forallb wf_tok (opn s) = true) by (unfold opn; destruct (s <? 1)%nat; reflexivity).
+    assert (Hs : forallb wf_tok (sep s) = true) by (unfold sep; destruct (s <? 2)%nat; reflexivity).
+    assert (Hc : forallb wf_tok (cls s) = true) by (unfold cls; destruct (s <? 3)%nat; reflexivity).
+    rewrite Ho, Hc. cbn [andb]. rewrite andb_true_r.
+    cbn [lits_wf] in H. rewrite Forall_forall in IH. rewrite forallb_forall in H.
+    remember (m :: ms) as xs eqn:Exs. clear Exs m ms.
+    induction xs as [|[k v] xs IHx]; [reflexivity|].
+    assert (Hx : forallb wf_tok (memb s (k, v)) = true).
+    { specialize (H (k, v) (or_introl eq_refl)). cbn in H. apply andb_true_iff in H as [Hk Hv].
+      cbn [memb forallb wf_tok]. unfold lit_wf. rewrite Hk. cbn [orb andb].
+      change (forallb wf_tok (wt s v) = true). apply (IH (k, v)); [left; reflexivity|exact Hv]. }
+    assert (Hr : forallb wf_tok (sepcat (sep s) (map (memb s) xs)) = true).
+    { apply IHx; intros; [apply IH|apply H]; try right; assumption. }
+    destruct xs as [|y xs]; [exact Hx|].
+    change (sepcat (sep s) (map (memb s) ((k, v) :: y :: xs)))
+      with (memb s (k, v) ++ sep s ++ sepcat (sep s) (map (memb s) (y :: xs))).
+    rewrite !forallb_app, Hx, Hs, Hr. reflexivity.
+Qed.
+
+Lemma tt_wf s ms : lits_wf (JO ms) = true -> forallb wf_tok (tt s ms) = true.
+Proof.
+  intros H. unfold tt. change (LC :: ?t ++ [RC]) with ([LC] ++ t ++ [RC]).
+  rewrite !forallb_app. cbn [forallb wf_tok LC RC N.eqb Pos.eqb negb andb]. rewrite andb_true_r.
+  assert (Hs : forallb wf_tok (sep s) = true) by (unfold sep; destruct (s <? 2)%nat; reflexivity).
+  cbn [lits_wf] in H. rewrite forallb_forall in H.
+  induction ms as [|[k v] xs IHx]; [reflexivity|].
+  assert (Hx : forallb wf_tok (memb s (k, v)) = true).
+  { specialize (H (k, v) (or_introl eq_refl)). cbn in H. apply andb_true_iff in H as [Hk Hv].
+    cbn [memb forallb wf_tok]. unfold lit_wf. rewrite Hk. cbn [orb andb]. apply wt_wf, Hv. }
+  assert (Hr : forallb wf_tok (sepcat (sep s) (map (memb s) xs)) = true).
+  { apply IHx; intros; apply H; right; assumption. }
+  destruct xs as [|y xs]; [exact Hx|].
+  change (sepcat (sep s) (map (memb s) ((k, v) :: y :: xs)))
+    with (memb s (k, v) ++ sep s ++ sepcat (sep s) (map (memb s) (y :: xs))).
+  rewrite !forallb_app, Hx, Hs, Hr. reflexivity.
+Qed.
+
+Theorem scanning_roundtrip d :
+  top_nonempty d = true -> lits_wf d = true ->
+  from_eebus_scanning (wire d) = render (norm d).
+Proof.
+  intros Htop Hlits. destruct d as [l|vs|[|m ms]]; try discriminate.
+  unfold from_eebus_scanning. rewrite wire_top.
+  pose proof (scan_tokens (tt 0 (m :: ms)) [] eq_refl (tt_wf 0 _ Hlits)) as E.
+  change (rev (flat [])) with (@nil N) in E. change ([] ++ tt 0 (m :: ms)) with (tt 0 (m :: ms)) in E.
+  rewrite E. unfold P4. rewrite passes_top, tt4_norm.
+  unfold render. cbn [norm rt map].
+  set (body := sepcat [CM] _).
+  change (flat (LC :: body ++ [RC])) with (123 :: flat (body ++ [RC])).
+  rewrite flat_app. change (flat [RC]) with [125]. apply trim_braces.
+Qed.
+
+(* the source has the scanning variant *)
+Lemma scans_true : eebus_scans_strings = true.
+Proof. reflexivity. Qed.
+
+Theorem roundtrip_norm d :
+  top_nonempty d = true -> lits_wf d = true ->
+  from_eebus (wire d) = render (norm d).
+Proof. unfold from_eebus. rewrite scans_true. apply scanning_roundtrip. Qed.
 
 (* ================================================================== 8. corollaries, shape, witnesses *)
 Lemma norm_id d : has_empty_array d = false -> norm d = d.
@@ -692,13 +937,13 @@ Proof.
 Qed.
 
 Theorem roundtrip_exact d :
-  top_nonempty d = true -> lits_ok d = true -> has_empty_array d = false ->
+  top_nonempty d = true -> lits_wf d = true -> has_empty_array d = false ->
   from_eebus (wire d) = render d.
 Proof. intros H1 H2 H3. rewrite roundtrip_norm, norm_id by assumption. reflexivity. Qed.
 
 (* the monitor of the check, on the model's own output *)
 Theorem roundtrip_monitor d :
-  top_nonempty d = true -> lits_ok d = true ->
+  top_nonempty d = true -> lits_wf d = true ->
   incl (roundtrip_codes d (from_eebus (wire d))) [11] /\
   (has_empty_array d = false -> roundtrip_codes d (from_eebus (wire d)) = []).
 Proof.
@@ -830,7 +1075,7 @@ Proof.
 Qed.
 
 Theorem order_and_literals d :
-  top_nonempty d = true -> lits_ok d = true ->
+  top_nonempty d = true -> lits_wf d = true ->
   exists d', from_eebus (wire d) = render d' /\
              names_of d' = names_of d /\ scalars_of d' = scalars_of d /\
              (has_empty_array d = false -> d' = d).
@@ -851,22 +1096,25 @@ Definition w_string : json := JO [(hx "226122", JS (hx "225b7b787d5d22"))].
 Definition w_empty_top : json := JO [].
 
 Lemma refuted_empty_array :
-  exists d, top_nonempty d = true /\ lits_ok d = true /\
+  exists d, top_nonempty d = true /\ lits_wf d = true /\
             from_eebus (wire d) <> render d /\ roundtrip_codes d (from_eebus (wire d)) = [11].
 Proof.
   exists w_empty_array. repeat split; try (vm_compute; reflexivity). vm_compute. discriminate.
 Qed.
 
-Lemma refuted_string :
-  exists d, top_nonempty d = true /\ has_empty_array d = false /\
-            from_eebus (wire d) <> render d /\ roundtrip_codes d (from_eebus (wire d)) = [12] /\
-            from_eebus (wire d) = hx "7b2261223a227b787d227d".
+(* the defect that was repaired: the replacements applied to the whole text rewrite the
+   content of a string literal *)
+Lemma global_refuted_string :
+  exists d, top_nonempty d = true /\ lits_wf d = true /\ has_empty_array d = false /\
+            from_eebus_global (wire d) <> render d /\
+            roundtrip_codes d (from_eebus_global (wire d)) = [12] /\
+            from_eebus_global (wire d) = hx "7b2261223a227b787d227d".
 Proof.
   exists w_string. repeat split; try (vm_compute; reflexivity). vm_compute. discriminate.
 Qed.
 
 Lemma refuted_empty_top :
-  exists d, top_object d = true /\ lits_ok d = true /\ has_empty_array d = false /\
+  exists d, top_object d = true /\ lits_wf d = true /\ has_empty_array d = false /\
             wire d = [] /\ from_eebus (wire d) <> render d /\
             roundtrip_codes d (from_eebus (wire d)) = [13].
 Proof.
@@ -881,21 +1129,56 @@ Qed.
 
 (* the hypotheses are satisfiable by a non-trivial document: nested objects, arrays of
    objects, arrays of arrays, an empty object, a 30-digit number, an exponent number,
-   true and null, and string literals holding single brackets, braces and commas
-   (a[b]c{d}e,f) and an escaped quote followed by an escaped backslash. *)
+   true and null, a member name that is the text [] in quotes, and string literals holding
+   all four patterns ( a[{b},{c}]d[]e ) and an escaped quote followed by an escaped
+   backslash and a bracket pair ( q, backslash quote, backslash backslash, [] ). *)
 Definition ex_doc : json :=
   JO [(hx "22646174616772616d22",
        JO [(hx "2268656164657222",
             JO [(hx "227622", JS (hx "22312e322e3022"));
                 (hx "226e22", JS (hx "313233343536373839303132333435363738393031323334353637383930"));
                 (hx "226522", JS (hx "2d312e35652b3130"))]);
-           (hx "22636d6422",
+           (hx "225b5d22",
             JA [JA [JO [(hx "226622", JO [])]; JO [(hx "226722", JA [JS (hx "31"); JA [JS (hx "32"); JS (hx "33")]])]];
-                JS (hx "22615b625d637b647d652c6622");
-                JS (hx "22715c225c5c22");
+                JS (hx "22615b7b627d2c7b637d5d645b5d6522");
+                JS (hx "22715c225c5c5b5d22");
                 JS (hx "74727565"); JS (hx "6e756c6c")])])].
 
 Lemma ex_doc_ok :
-  top_nonempty ex_doc = true /\ lits_ok ex_doc = true /\ has_empty_array ex_doc = false /\
-  from_eebus (wire ex_doc) = render ex_doc /\ wire ex_doc <> render ex_doc.
-Proof. repeat split; try (vm_compute; reflexivity). vm_compute. discriminate. Qed.
+  top_nonempty ex_doc = true /\ lits_wf ex_doc = true /\ has_empty_array ex_doc = false /\
+  lits_ok ex_doc = false /\
+  from_eebus (wire ex_doc) = render ex_doc /\ wire ex_doc <> render ex_doc /\
+  from_eebus_global (wire ex_doc) <> render ex_doc.
+Proof. repeat split; try (vm_compute; reflexivity); vm_compute; discriminate. Qed.
+
+(* lexical well-formedness is what every JSON literal has: a string literal ... *)
+Lemma string_literal_wf body :
+  forallb (fun c => negb (c =? 34) && negb (c =? 92)) body = true ->
+  lit_wf (34 :: body ++ [34]) = true.
+Proof.
+  intros H. unfold lit_wf, str_lit_ok. change (34 =? 34) with true. cbn [andb].
+  assert (E : str_tail_ok false (body ++ [34]) = true).
+  { induction body as [|c b IH]; [reflexivity|].
+    cbn [forallb] in H. apply andb_true_iff in H as [Hc H]. apply andb_true_iff in Hc as [H1 H2].
+    apply negb_true_iff in H1. apply negb_true_iff in H2.
+    cbn [app str_tail_ok]. rewrite H2, H1. apply IH, H. }
+  rewrite E. reflexivity.
+Qed.
+
+(* ... and a number / true / false / null: no quote, no bracket, brace or comma *)
+Lemma atom_literal_wf l :
+  l <> [] -> forallb (fun c => negb (in_set c [34; 91; 93; 123; 125; 44])) l = true -> lit_wf l = true.
+Proof.
+  intros Hne H. unfold lit_wf. apply orb_true_iff. right. unfold atom_ok.
+  destruct l as [|c l]; [congruence|]. cbn [is_nil negb andb].
+  rewrite forallb_forall in *. intros x Hx. specialize (H x Hx). apply negb_true_iff in H.
+  unfold in_set in H. cbn [existsb] in H. repeat (apply orb_false_iff in H as [? H]).
+  rewrite H0. cbn [negb andb]. apply negb_true_iff.
+  destruct (in_set x pat_bytes) eqn:E; [|reflexivity].
+  apply in_set_In in E. unfold pat_bytes in E. rewrite pairs_eq in E. cbn in E.
+  repeat (destruct E as [E|E]; [subst x; rewrite ?N.eqb_refl in *; discriminate|]). destruct E.
+Qed.
+
+Lemma eebus_keeps_names_and_literals d :
+  names_of (to_eebus d) = names_of d /\ scalars_of (to_eebus d) = scalars_of d.
+Proof. split; [apply names_eebus|apply scalars_eebus]. Qed.
